@@ -110,3 +110,35 @@ Example ex_complete :
   (total_entries ex_ttls <=? 5)%nat = true /\
   schedule 5 ex_ttls = [[10; 11]; [12]; [13]; []; []; []]%N.
 Proof. vm_compute. split; reflexivity. Qed.
+
+(** ** The TTL generation (mirror Model/TTL.v of AddBlockSummary / genTTLs with its backward walk
+    undoAdd / undoDel on positions, compared with the code on every history of every run) computes
+    EXACTLY the reference TTL facts (Proofs/TTLSpec.v, TTLUndoAdd.v, TTLUndoDel.v, TTLTracker.v): for
+    every valid history (blocks of distinct live deletions and fresh additions, summaries = the
+    deletion targets as a prover emits them + the addition count), up to 2^62 leaves, the tracker never
+    fails and [ttl_run] returns, per block, (insertion slot, deleted-block minus added-block) for every
+    leaf added in that block and deleted in a later recorded block, ascending by slot - the input for
+    which [sched_subset] / [sched_memory] / [sched_complete] above are stated.  Together: the schedule the
+    mirrors compute names real leaves, respects the limit, and is complete. *)
+From Utreexo Require Import Base.Hash Model.TTL Proofs.StumpUpdate Proofs.TTLSpec Proofs.TTLTracker.
+
+Theorem C15_ttls_are_exactly_the_reference_facts :
+  forall (H : Type) (HO : ops H), ops_ok HO ->
+  forall blocks : list (list H * list H),
+    StumpUpdate.valid_hist H HO [] blocks ->
+    N.of_nat (StumpUpdate.total_adds H blocks) <= 2 ^ 62 ->
+    exists sm : list (list N * N),
+      hist_summaries H HO [] blocks = Some sm /\ ttl_run sm = Some (exp_ttls_z H HO blocks).
+Proof. exact ttl_statement_holds. Qed.
+Print Assumptions C15_ttls_are_exactly_the_reference_facts.
+
+(** the tracker is total: AddBlockSummary never fails, whatever targets it is given *)
+Theorem C15_tracker_total :
+  forall (hist : list (list N * N)) (cs : tracker),
+    tracker_wf cs ->
+    last (cs_numLeaves cs) 0 + sum_adds hist < 2 ^ 64 ->
+    exists cs', ttl_summaries cs hist = Some cs' /\ tracker_wf cs' /\
+      length (cs_deletions cs') = (length (cs_deletions cs) + length hist)%nat /\
+      last (cs_numLeaves cs') 0 = last (cs_numLeaves cs) 0 + sum_adds hist.
+Proof. exact ttl_summaries_total. Qed.
+Print Assumptions C15_tracker_total.
